@@ -190,6 +190,7 @@ class Contract:
     splits: dict[str, str] = field(default_factory=dict)  # case split of the precondition: label -> condition
     witness: dict[str, str] = field(default_factory=dict)  # named terms whose model values are reported (for replay)
     hide: list[str] = field(default_factory=list)  # spec functions whose definitions stay opaque in this function's VCs
+    prelude: list[str] = field(default_factory=list)  # optional prelude axiom groups to include (e.g. "idx_app_rev")
 
 
 @dataclass
@@ -216,6 +217,7 @@ class Lemma:
     trusted: bool = False
     cases: list[str] = field(default_factory=list)
     hide: list[str] = field(default_factory=list)
+    prelude: list[str] = field(default_factory=list)
     explicit: bool = False  # not a global axiom: only instantiated by `use name(args)` hints
 
 
@@ -241,6 +243,8 @@ class Engine:
         self.cur_func = ""
         self.cur_contract: Optional[Contract] = None
         self.strlits: dict[str, Any] = {}
+        self.aux_facts: list[Any] = []
+        self.seq_ty_by_sort: dict[str, SeqTy] = {}
         self.pure_decls: dict[str, Any] = {}
         self.mode_spec = False
         self._site = 0
@@ -249,6 +253,8 @@ class Engine:
 
     # ----------------------------------------------------------------- helpers
     def sort(self, ty: Ty) -> Any:
+        if isinstance(ty, SeqTy):
+            self.seq_ty_by_sort.setdefault(ty.name, ty)
         return self.pre.sort(ty)
 
     def fresh(self, base: str, ty: Ty) -> V:
@@ -392,6 +398,8 @@ class Engine:
 
     # sequences ------------------------------------------------------------
     def seq_len(self, s: V) -> Any:
+        if isinstance(s.ty, SeqTy):
+            self.seq_ty_by_sort.setdefault(s.ty.name, s.ty)
         return self.pre.seqf(s.ty, "len")(s.t)  # type: ignore[arg-type]
 
     def seq_idx(self, s: V, i: Any) -> V:
@@ -473,7 +481,9 @@ class Engine:
 
     # ------------------------------------------------------------------ VCs
     def base_assertions(self) -> list[Any]:
-        out = [f for _, f in self.pre.axioms]
+        opt = set((self.cur_contract.prelude if self.cur_contract is not None else None) or getattr(self, "cur_prelude", None) or [])
+        out = [f for nm, f in self.pre.axioms
+               if not (nm.endswith((".idx_app_left", ".idx_app_right", ".idx_app_last")) and "idx_app_rev" not in opt)]
         hidden = set((self.cur_contract.hide if self.cur_contract is not None else None) or getattr(self, "cur_hide", None) or [])
         out += [f for nm, f in self.spec_axioms if nm.split(".")[1] not in hidden]
         out += [f for _, f in self.lemma_axioms]
@@ -489,6 +499,8 @@ class Engine:
             s.add(a)
         for a in extra_pc or []:
             s.add(a)
+        for a in self.aux_facts:
+            s.add(a)
         s.add(z3.Not(goal))
         path = "/".join(st.path) or "-"
         name = f"{self.cur_func}/{clause}/{path}"
@@ -498,6 +510,70 @@ class Engine:
 
     def assume(self, st: State, f: Any) -> None:
         st.pc.append(f)
+
+    def mention(self, v: V) -> None:
+        """Keep a ground sequence term in the e-graph: `len(t) >= 0` (an instance of
+        the len_nonneg axiom, hence sound to add to every VC) makes t a ground term
+        that multi-patterns can match even when it otherwise only occurs under a
+        quantifier."""
+        if not isinstance(v.ty, SeqTy) or self.has_bound(v.t):
+            return
+        f = self.seq_len(v) >= 0
+        if not any(f.eq(g) for g in self.aux_facts[-200:]):
+            self.aux_facts.append(f)
+
+    def mention_ground_seqs(self, f: Any) -> None:
+        """Every ground sequence-valued application occurring under a quantifier of
+        a clause is kept in the e-graph (see `mention`)."""
+        seen: set[int] = set()
+        bound_cache: dict[int, bool] = {}
+
+        def is_bound(e: Any) -> bool:
+            k = e.get_id()
+            if k in bound_cache:
+                return bound_cache[k]
+            if z3.is_var(e):
+                r = True
+            elif z3.is_quantifier(e):
+                r = True
+            elif z3.is_const(e):
+                r = e.decl().kind() == z3.Z3_OP_UNINTERPRETED and "$" in e.decl().name()
+            else:
+                r = any(is_bound(c) for c in e.children())
+            bound_cache[k] = r
+            return r
+
+        def walk(e: Any, under: bool) -> None:
+            if e.get_id() in seen and not under:
+                return
+            seen.add(e.get_id())
+            if z3.is_quantifier(e):
+                walk(e.body(), True)
+                return
+            if not z3.is_app(e):
+                return
+            if under and e.num_args() > 0 and e.sort().name().startswith("Seq_") and not is_bound(e):
+                ty = self.seq_ty_by_sort.get(e.sort().name())
+                if ty is not None:
+                    self.mention(V(e, ty))
+            for c in e.children():
+                walk(c, under)
+        walk(f, False)
+
+    def has_bound(self, t: Any) -> bool:
+        seen = set()
+        stack = [t]
+        while stack:
+            e = stack.pop()
+            if e.get_id() in seen:
+                continue
+            seen.add(e.get_id())
+            if z3.is_var(e):
+                return True
+            if z3.is_const(e) and e.decl().kind() == z3.Z3_OP_UNINTERPRETED and "$" in e.decl().name():
+                return True
+            stack.extend(e.children())
+        return False
 
     def prove_then_assume(self, st: State, f: Any, clause: str, text: str = "") -> None:
         self.emit(st, f, clause, text=text)
@@ -515,7 +591,9 @@ class Engine:
             if extra:
                 st2.env.update(extra)
             v = self.expr(node, st2)
-            return self.truthy(v)
+            f = self.truthy(v)
+            self.mention_ground_seqs(f)
+            return f
         finally:
             self.mode_spec = saved
 
@@ -842,6 +920,54 @@ class Engine:
             m = self.pre.mapf(ty, "store")(m, self.coerce(k, ty.key).t, self.coerce(v, ty.val).t)
         return V(m, ty)
 
+    def e_DictComp(self, n: ast.DictComp, st: State) -> V:
+        """{k(x): v(x) for x in xs}: a fresh map d with
+             forall p in range(len(xs)): k(xs[p]) in d                (and d[k] is v of the *last* such p)
+             forall key in d: some position p produced it             (witness function)
+        Supported when the generator has one clause and no filter."""
+        if len(n.generators) != 1 or n.generators[0].ifs:
+            raise Unsupported("dict comprehension with filter / several generators", n)
+        gen = n.generators[0]
+        k = self.site()
+        xs = self.as_seq(self.expr(gen.iter, st), st)
+        named = self.fresh(f"dsrc{k}", xs.ty)
+        self.assume(st, named.t == xs.t)
+        self.assume(st, self.seq_len(xs) >= 0)  # keeps the source term in the e-graph as a ground term
+        xs = named
+        bv = z3.Int(f"di${k}")
+        st2 = st.fork()
+        st2.old = st.old
+        st2.env.update(self.bind_target(gen.target, self.seq_idx(xs, bv)))
+        inb = z3.And(0 <= bv, bv < self.seq_len(xs))
+        st2.pc.append(inb)
+        saved = self.pending_raises
+        self.pending_raises = []
+        kv = self.expr(n.key, st2)
+        vv = self.expr(n.value, st2)
+        inner = self.pending_raises
+        self.pending_raises = saved
+        if inner and not self.mode_spec:
+            raise Unsupported("possibly-raising expression inside a dict comprehension", n)
+        declared = getattr(self, "expected_type", None)
+        if getattr(vv, "empty_lit", False):
+            if not isinstance(declared, MapTy):
+                raise Unsupported("dict comprehension with an empty-literal value needs a declared type", n)
+            vv = self.coerce(vv, declared.val)
+        ty = declared if isinstance(declared, MapTy) else MapTy(kv.ty, vv.ty)
+        kv, vv = self.coerce(kv, ty.key), self.coerce(vv, ty.val)
+        d = self.fresh(f"dcomp{k}", ty)
+        has, get = self.pre.mapf(ty, "has"), self.pre.mapf(ty, "get")
+        last = z3.Function(f"dlast{k}", self.sort(ty.key), T.I)
+        key_at = lambda i: z3.substitute(kv.t, (bv, i))  # noqa: E731
+        val_at = lambda i: z3.substitute(vv.t, (bv, i))  # noqa: E731
+        x = z3.Const(f"dk${k}", self.sort(ty.key))
+        self.assume(st, z3.ForAll([bv], z3.Implies(inb, has(d.t, kv.t)), patterns=[self.seq_idx(xs, bv).t]))
+        self.assume(st, z3.ForAll([x], z3.Implies(has(d.t, x), z3.And(0 <= last(x), last(x) < self.seq_len(xs), key_at(last(x)) == x,
+                                                                    get(d.t, x) == val_at(last(x)))), patterns=[has(d.t, x)]))
+        self.assume(st, z3.ForAll([bv], z3.Implies(inb, bv <= last(kv.t)), patterns=[self.seq_idx(xs, bv).t]))
+        self.trusted_used.add("dict comprehension: keys are exactly the produced keys, the last producer wins; insertion order of keys is left unspecified")
+        return d
+
     def e_Set(self, n: ast.Set, st: State) -> V:
         items = [self.expr(e, st) for e in n.elts]
         ty = SetTy(items[0].ty)
@@ -939,9 +1065,91 @@ class Engine:
         if inner_raises and not self.mode_spec:
             raise Unsupported("possibly-raising expression inside all()/any()", n)
         g = z3.And(*guards) if guards else z3.BoolVal(True)
+        pats = self.index_patterns(bvs, [g, body])
+        # terms that occur only under a nested quantifier would not reach the e-graph once the bound
+        # variable is skolemised / instantiated: name them at this level through a predicate that is
+        # axiomatically true (`touch`), which leaves the meaning unchanged
+        for c in self.last_cands:
+            g = z3.And(g, self.touch(c))
         if universal:
-            return z3.ForAll(bvs, z3.Implies(g, body))
-        return z3.Exists(bvs, z3.And(g, body))
+            return z3.ForAll(bvs, z3.Implies(g, body), patterns=pats) if pats else z3.ForAll(bvs, z3.Implies(g, body))
+        return z3.Exists(bvs, z3.And(g, body), patterns=pats) if pats else z3.Exists(bvs, z3.And(g, body))
+
+    def index_patterns(self, bvs: list[Any], fs: list[Any]) -> list[Any]:
+        """Explicit triggers for `all(... for i in range(n))`-style quantifiers: the
+        element terms xs[i] (and map lookups m[k]) indexed by exactly the bound
+        variable.  One alternative per candidate for a single variable; for several
+        variables one multi-pattern.  Empty -> the solver infers."""
+        cands: dict[int, list[Any]] = {i: [] for i in range(len(bvs))}
+        seen: set[int] = set()
+
+        nested_only: list[Any] = []
+        self.last_cands = nested_only
+
+        def walk(e: Any, under: bool = False) -> None:
+            if e.get_id() in seen and not under:
+                return
+            seen.add(e.get_id())
+            if z3.is_quantifier(e):
+                walk(e.body(), True)
+                return
+            if under:
+                # only collect terms for `touch`; they cannot serve as patterns of the outer quantifier unless also outside
+                if z3.is_app(e) and e.num_args() >= 2 and e.decl().name().startswith("idx_"):
+                    last = e.arg(e.num_args() - 1)
+                    if any(last.eq(bv) for bv in bvs) and not self.has_var(e) and not any(e.eq(c) for c in nested_only):
+                        nested_only.append(e)
+                for c in e.children():
+                    walk(c, True)
+                return
+            if z3.is_app(e) and e.num_args() >= 2:
+                nm = e.decl().name()
+                last = e.arg(e.num_args() - 1)
+                if nm.startswith(("idx_", "has_Map", "get_Map", "mem_Set")):
+                    for i, bv in enumerate(bvs):
+                        if last.eq(bv) and not any(self.mentions_any(e.arg(j), bvs) for j in range(e.num_args() - 1)):
+                            if not any(e.eq(c) for c in cands[i]):
+                                cands[i].append(e)
+            for c in e.children():
+                walk(c)
+        for f in fs:
+            walk(f)
+        outside = [c for v in cands.values() for c in v]
+        nested_only[:] = [c for c in nested_only if not any(c.eq(o) for o in outside)]
+        for i, bv in enumerate(bvs):
+            if not cands[i]:
+                cands[i] = [c for c in nested_only if c.arg(c.num_args() - 1).eq(bv)]
+        if any(not v for v in cands.values()):
+            return []
+        if len(bvs) == 1:
+            return cands[0][:3]
+        return [z3.MultiPattern(*[cands[i][0] for i in range(len(bvs))])]
+
+    def has_var(self, t: Any) -> bool:
+        seen = set()
+        stack = [t]
+        while stack:
+            e = stack.pop()
+            if e.get_id() in seen:
+                continue
+            seen.add(e.get_id())
+            if z3.is_var(e):
+                return True
+            stack.extend(e.children())
+        return False
+
+    def touch(self, t: Any) -> Any:
+        srt = t.sort()
+        nm = f"touch_{srt.name()}"
+        f = self.pre.func(nm, srt, z3.BoolSort())
+        if nm not in self.pre._done:
+            self.pre._done.add(nm)
+            x = z3.Const("x", srt)
+            self.pre.ax(nm, z3.ForAll([x], f(x), patterns=[f(x)]))
+        return f(t)
+
+    def mentions_any(self, t: Any, cs: list[Any]) -> bool:
+        return any(self.mentions(t, c) for c in cs)
 
     def comprehension(self, n: ast.ListComp | ast.GeneratorExp, st: State) -> V:
         """[f(x) for x in xs] -> fresh sequence r with len(r) == len(xs) and r[i] == f(xs[i]).
@@ -961,6 +1169,7 @@ class Engine:
             # name the source so that it can occur in (ite-free) patterns
             named = self.fresh(f"csrc{k}", xs.ty)
             self.assume(st, named.t == xs.t)
+            self.assume(st, self.seq_len(xs) >= 0)  # keeps the source term in the e-graph as a ground term
             xs = named
         bv = z3.Int(f"ci${k}")
         st2 = st.fork()
@@ -986,7 +1195,9 @@ class Engine:
             st.pc.append(z3.ForAll([bv], z3.Implies(z3.And(*local), z3.Not(neg))))
         rty = SeqTy(elt.ty)
         if gfn is not None:
-            return V(gfn(xs_orig.t), rty)
+            r = V(gfn(xs_orig.t), rty)
+            self.mention(r)
+            return r
         r = self.fresh(f"comp{k}", rty)
         if not conds:
             self.assume(st, self.seq_len(r) == self.seq_len(xs))
@@ -1020,7 +1231,17 @@ class Engine:
         f([]) = [], f([x]) = ..., f(a + b) = f(a) + f(b) that give lemmas an
         inductive handle).  The same text in code and in a clause is the same term."""
         import hashlib as _h
-        text = f"{xs.ty.name}|{ast.unparse(gen.target)}|{ast.unparse(n.elt)}|{[ast.unparse(c) for c in gen.ifs]}"
+        # alpha-normalised: the name of the loop target does not matter
+        tnames = [x.id for x in ast.walk(gen.target) if isinstance(x, ast.Name)]
+        ren = {nm: f"_v{i}" for i, nm in enumerate(tnames)}
+
+        class _R(ast.NodeTransformer):
+            def visit_Name(s_, node: ast.Name) -> Any:  # noqa: N805
+                return ast.copy_location(ast.Name(id=ren.get(node.id, node.id), ctx=node.ctx), node)
+
+        def norm(e: ast.AST) -> str:
+            return ast.unparse(_R().visit(copy.deepcopy(e)))
+        text = f"{xs.ty.name}|{norm(gen.target)}|{norm(n.elt)}|{[norm(c) for c in gen.ifs]}"
         tag = _h.sha1(text.encode()).hexdigest()[:8]
         cache = self.__dict__.setdefault("_closed_comp", {})
         if tag in cache:
@@ -1072,7 +1293,8 @@ class Engine:
             A(f"comp.{tag}.mono", z3.ForAll([q.t, i, j], z3.Implies(z3.And(0 <= i, i < j, j < ln_r(fn(q.t))), emb(q.t, i) < emb(q.t, j)),
                                             patterns=[z3.MultiPattern(emb(q.t, i), emb(q.t, j))]))
             A(f"comp.{tag}.inv", z3.ForAll([q.t, i], z3.Implies(z3.And(inb, cond_at(i)), z3.And(
-                0 <= inv(q.t, i), inv(q.t, i) < ln_r(fn(q.t)), emb(q.t, inv(q.t, i)) == i)),
+                0 <= inv(q.t, i), inv(q.t, i) < ln_r(fn(q.t)), emb(q.t, inv(q.t, i)) == i,
+                idx_r(fn(q.t), inv(q.t, i)) == elt_at(i))),
                 patterns=[z3.MultiPattern(fn(q.t), idx_x(q.t, i))]))
             A(f"comp.{tag}.len", z3.ForAll([q.t], z3.And(0 <= ln_r(fn(q.t)), ln_r(fn(q.t)) <= ln_x(q.t)), patterns=[fn(q.t)]))
         # homomorphism laws
@@ -1383,6 +1605,7 @@ class Engine:
     func_defaults: dict[str, dict[str, ast.expr]] = {}
     pending_raises: list[tuple[list[Any], Any, str, str]] = []
     limit_spec: Optional[str] = None
+    last_cands: list[Any] = []
 
 
 BOOL_S = z3.BoolSort()
